@@ -2960,7 +2960,7 @@ func convertToken(tok token.Token, typ types.Type) (opcode.Opcode, error) {
 		return opcode.SHL, nil
 	case token.SHR, token.SHR_ASSIGN:
 		return opcode.SHR, nil
-	case token.XOR:
+	case token.XOR, token.XOR_ASSIGN:
 		return opcode.XOR, nil
 	default:
 		return 0, fmt.Errorf("compiler could not convert token: %s", tok)
